@@ -23,6 +23,9 @@ let canon_cres (r : cres res) : string = match r with
 
 let install register get getn geti getb =
   ignore getn; ignore geti; ignore getb;
+  register "ro" (fun kv ->
+    let p = parse_packet (get kv "p") in
+    "denied=" ^ bool_s (not (gate ro_fixed p)));
   register "creply" (fun kv ->
     let op = get kv "op" and reply = bytes_of_hex (get kv "reply") in
     let safe = client_safe in
